@@ -2622,7 +2622,12 @@ impl Shard {
 /// A panic that escapes the per-call guards (library panic inside operand construction or a
 /// harness bug) must not take the process down: the shard is reported inconclusive.
 fn run_shard(ctx: &Ctx, specs: &Specs, base: &Report, s: &Shard, mode: Mode) -> ShardOut {
-    match catch_any(|| run_shard_inner(ctx, specs, base, s, mode)) {
+    let t0 = std::time::Instant::now();
+    let r = catch_any(|| run_shard_inner(ctx, specs, base, s, mode));
+    if std::env::var("MZV_SHARD_TIMES").is_ok() {
+        eprintln!("shard {} {:.2}s", s.label(), t0.elapsed().as_secs_f64());
+    }
+    match r {
         Ok(o) => o,
         Err(pi) => {
             let mut rep = base.fork();
@@ -2668,6 +2673,8 @@ fn main() {
     rep.assume("reference: affine group laws over num-bigint in harness/src/refs/curve.rs, constants from the published standards, self-checked against published vectors at start");
     rep.assume("library points are observed through the affine accessors (coordinates / get_u,get_v / x,y) after to_affine; the compressed encoding is used as a second observation channel");
     rep.assume("primality of the published group orders r is trusted");
+    rep.assume("decoder policies: BLS12-381 compressed decoders and JubjubSubgroup::from_bytes must accept exactly the prime-order subgroup; BLS12-381 uncompressed decoders, all *_unchecked decoders and bn256::G2 may accept or reject on-curve points outside the subgroup (the repository documents on-curve checks only); Jubjub extended/affine and Curve25519 decoders must accept every canonical on-curve encoding; from_bytes_pre_zip216_compatibility may accept its two documented non-canonical encodings");
+    rep.assume("counted, not failed: CurveAffine::coordinates() of the identity returns Some((0,0)) although its doc comment says None; bn256::G2::into_subgroup is unimplemented!() and is not called");
 
     let bad = self_check();
     if !bad.is_empty() {
@@ -2762,6 +2769,14 @@ fn main() {
     rep.set("operand_class_counts", Json::Object(classes));
     rep.set("operand_pair_matrix", Json::Object(pairs));
     rep.set("decoder_corpus_classes", Json::Object(decclasses));
+    // endo must be one fixed endomorphism: the same eigenvalue on every point of a family
+    for fam in FAMILIES {
+        let seen: Vec<&String> = rep.counters.keys().filter(|k| k.starts_with(&format!("observed.{fam}.endo=lambda"))).collect();
+        if seen.len() > 1 {
+            let w = json!({"family": fam, "inputs": {}, "observed": seen});
+            rep.violation(&format!("C11/{fam}/endo/inconsistent-eigenvalue"), "endo(P) = λ·P holds with different cube roots λ on different points", w);
+        }
+    }
     if only.is_none() && mode == Mode::Full {
         for fam in FAMILIES {
             for cls in ["identity", "generator", "random", "same-point-z!=1"] {
